@@ -22,7 +22,7 @@ func TestReserve(t *testing.T) {
 		t.Fatalf("port %d", p.Port)
 	}
 	seen := map[int]bool{p.Port: true}
-	for i := 0; i < 2000; i++ {
+	for i := 0; i < 200; i++ {
 		q, err := Reserve()
 		if err != nil {
 			t.Fatal(err)
@@ -31,6 +31,9 @@ func TestReserve(t *testing.T) {
 			t.Fatalf("port %d reserved twice", q.Port)
 		}
 		seen[q.Port] = true
+		if q.Port/256 != p.Port/256 {
+			t.Fatalf("port %d is outside the block of port %d", q.Port, p.Port)
+		}
 		defer q.Release()
 	}
 	for i := 0; i < 3; i++ {
